@@ -17,6 +17,7 @@ import (
 	"github.com/TarsCloud/TarsGo/tars/transport"
 	"github.com/TarsCloud/TarsGo/tars/util/current"
 
+	"verifsim/refcodec"
 	"verifsim/scen"
 	"verifsim/scen/world"
 	"verifsim/simnet"
@@ -55,6 +56,8 @@ type S struct {
 	cliPrelude []bool
 	clients []*transport.TarsClient
 	done    bool
+	writeTO time.Duration
+	echo    bool // the server answers every packet with the packet itself (frames travel back through its writer)
 }
 
 func (s *S) Prepare(c *scen.Ctx) { world.PrepareProcess() }
@@ -76,6 +79,9 @@ func (p *srvProto) Invoke(ctx context.Context, pkg []byte) []byte {
 	p.s.mu.Lock()
 	p.s.srvGot[port] = append(p.s.srvGot[port], got{simrt.CurID(), append([]byte(nil), pkg...), simrt.Step()})
 	p.s.mu.Unlock()
+	if p.s.echo {
+		return append([]byte(nil), pkg...)
+	}
 	return []byte{0, 0, 0, 5, 0xaa}
 }
 func (p *srvProto) ParsePackage(b []byte) (int, int) { return protocol.TarsRequest(b) }
@@ -257,8 +263,25 @@ func (s *S) Run(c *scen.Ctx) {
 		budget = 12 << 20
 	}
 	// ---- server side: real TarsServer + tcpHandler, scripted raw writers ----
+	// the other direction: in half of the runs with moderate frame sizes the server echoes every
+	// packet, through socket buffers that may be small, to a client that may stop reading for a
+	// while; the frames must come back intact whatever the server's write time-out is
+	writeTO := time.Duration(0)
+	slowReader := time.Duration(0)
+	if s.maxLen <= 100000 && simrt.Draw(2, "c07.echo") == 1 {
+		s.echo = true
+		writeTO = []time.Duration{0, 300 * time.Millisecond, 3 * time.Second}[simrt.Draw(3, "c07.writeto")]
+		if simrt.Draw(2, "c07.slowreader") == 1 {
+			slowReader = time.Duration(500+500*simrt.Draw(8, "c07.readerstall")) * time.Millisecond
+			simnet.Cfg.SmallBufs = true
+			c.Count("fault.client_stops_reading_for_a_while", 1)
+		}
+	}
+	c.Describe("server_echoes", s.echo)
+	c.Describe("server_write_timeout", writeTO.String())
+	s.writeTO = writeTO
 	conf := &transport.TarsServerConf{Proto: "tcp", Address: srvAddr, MaxInvoke: int32(s.pool), QueueCap: 1000,
-		AcceptTimeout: 500 * time.Millisecond, IdleTimeout: 600 * time.Second}
+		AcceptTimeout: 500 * time.Millisecond, IdleTimeout: 600 * time.Second, WriteTimeout: writeTO}
 	srv := transport.NewTarsServer(&srvProto{s}, conf)
 	if err := srv.Listen(); err != nil {
 		c.Inconclusive("listen: %v", err)
@@ -281,9 +304,16 @@ func (s *S) Run(c *scen.Ctx) {
 			// drain what the server writes back so that it never blocks on us
 			simrt.Go(func() {
 				b := make([]byte, 4096)
+				n := 0
 				for {
-					if _, err := conn.Read(b); err != nil {
+					k, err := conn.Read(b)
+					if err != nil {
 						return
+					}
+					n += k
+					if slowReader > 0 && n >= 4096 {
+						simrt.Sleep(slowReader) // the reader stops once, with responses in flight
+						slowReader = 0
 					}
 				}
 			})
@@ -462,6 +492,34 @@ func (s *S) Check(c *scen.Ctx, res *simrt.Result) {
 	pairs := simnet.Pairs()
 	for _, st := range s.srvStreams {
 		s.compare(c, "server", st, s.srvGot[st.port], s.pool == 0)
+		if s.echo {
+			// what came back: every frame in the server-to-client stream is one of the packets handed
+			// to the protocol layer, whole; and all of them when the stream was legal to its end
+			for _, p := range pairs {
+				if p.Addr != srvAddr || !strings.HasSuffix(p.Client.LocalAddr().String(), ":"+st.port) {
+					continue
+				}
+				want := map[string]int{}
+				for _, g := range s.srvGot[st.port] {
+					want[string(g.pkg)]++
+				}
+				back, rest, illegal := refcodec.SplitFrames(p.S2C.Bytes(), 0)
+				bad := illegal
+				var odd []byte
+				for _, f := range back {
+					want[string(f)]--
+					if want[string(f)] < 0 {
+						bad = true
+						odd = f
+					}
+				}
+				if bad {
+					c.Fail("C07", "response-frame-content", "server-writer", "server side, connection %d: the stream the server wrote back does not consist of the packets it echoed (%d frames parsed, illegal prefix met: %v, server write time-out %v; a frame that was not echoed: len %d head %q)", st.idx, len(back), illegal, s.writeTO, len(odd), head(odd))
+				} else if st.illegal == nil && st.sentAll && p.Server.ClosedAt < 0 && (len(back) != len(s.srvGot[st.port]) || len(rest) != 0) {
+					c.Fail("C07", "response-frame-count", "server-writer", "server side, connection %d: %d packets were echoed, the client got %d whole frames and %d more bytes back", st.idx, len(s.srvGot[st.port]), len(back), len(rest))
+				}
+			}
+		}
 		if st.illegal != nil && st.sentAll {
 			// the receiver must have closed exactly this connection
 			for _, p := range pairs {
